@@ -175,3 +175,12 @@ Proof.
   destruct (fire_all_dext c o fired x1) as (O & HO & HB).
   exists O. split; auto.
 Qed.
+
+Lemma fold_apply_active l z : active (fold_left apply_item l z) = active z.
+Proof. revert z; induction l as [|b l IH]; intros z; cbn; auto. rewrite IH. reflexivity. Qed.
+Lemma active_flush tok y : active (flush tok y) = active y.
+Proof.
+  unfold flush. destruct (batch y); auto.
+  destruct (match tok with None => true | Some t => t =? btoken y end); auto.
+  cbn [set_fault active]. rewrite fold_apply_active. reflexivity.
+Qed.
